@@ -786,7 +786,7 @@ def dcase_lit(job, res):
         cpairs(res["default_before"]["fresh"]), cbool(job["dummy"]),
         clist(obs_lit(r, domain_lit) for r in res["dfiles"]), obs_lit(res["dobs"], domain_lit),
         fresh, default,
-        others_lit(res, ("others_before", "others_mid", "others_again_mid", "others_after", "others_again")),
+        others_lit(res, ("others_expected", "others_before", "others_mid", "others_again_mid", "others_after", "others_again")),
         rt_lit(res, "dobs", "drt", domain_lit),
         ("(Some (%s, %s))" % (obs_lit(res["dobs2"], domain_lit), rt_lit(res, "dobs2", "drt2", domain_lit))
          if "dobs2" in res else "None"),
@@ -800,7 +800,7 @@ def pcase_lit(job, res):
         cstrs(dict.fromkeys([k for k, _ in res["default_after_problems"]["fresh"]] +
                             [k for k, _ in res["default_after_problems"]["DEFAULT_TYPES"]] +
                             [k for k, _ in res["default_end"]["fresh"]])),
-        others_lit(res, ("others_before", "others_after", "others_again")),
+        others_lit(res, ("others_expected", "others_before", "others_after", "others_again")),
         opt_lit(res.get("pexpect"), problem_lit))
 
 
@@ -862,7 +862,7 @@ def drun_fields(T, job, res):
     return (cbool(job["dummy"]), obs_lit(res["dobs"], dl),
             e_names(T, res["default_after"]["fresh"], res["default_end"]["fresh"]),
             e_names(T, res["default_after"]["DEFAULT_TYPES"], res["default_end"]["DEFAULT_TYPES"]),
-            e_others(T, res, ("others_before", "others_mid", "others_again_mid", "others_after", "others_again")),
+            e_others(T, res, ("others_expected", "others_before", "others_mid", "others_again_mid", "others_after", "others_again")),
             rt_lit(res, "dobs", "drt", dl),
             ("(Some (%s, %s))" % (obs_lit(res["dobs2"], dl), rt_lit(res, "dobs2", "drt2", dl)) if "dobs2" in res else "None"))
 
@@ -872,7 +872,7 @@ def prun_fields(T, job, res):
     return (obs_lit(res["pobs"], pl), rt_lit(res, "pobs", "prt", pl),
             e_names(T, res["default_after_problems"]["fresh"], res["default_after_problems"]["DEFAULT_TYPES"],
                     res["default_end"]["fresh"]),
-            e_others(T, res, ("others_before", "others_after", "others_again")))
+            e_others(T, res, ("others_expected", "others_before", "others_after", "others_again")))
 
 
 def group_cases(entries):
